@@ -67,7 +67,56 @@ def rule_dict(model, rep):
     rep.check(len(typed) == 1 and not asserts, R, site("TOTP._adapt_dict_kwds") + " no assert", ("assert " + "; assert ".join(asserts)) if asserts else "cls._check_otp_type(type) as a statement",
               "the record type is checked unconditionally and inconsistent records (a plain `key` next to `enckey`) are refused with ValueError -- an assert is AssertionError, or nothing under -O",
               witness="from_dict({'v':1,'type':'totp','key':K,'enckey':{...}}) raises AssertionError; under python -O from_dict({'v':1,'type':'bogus','key':K}) is accepted")
-    rep.check(has_if(adapt, "not ver or ver < cls.min_json_version or ver > cls.json_version"), R, site("TOTP._adapt_dict_kwds"), "version window", "missing / unsupported version -> ValueError")
+    # version window, decided over an ordering abstraction (min=2, max=4) instead of the text of the test: missing, zero, out-of-window and
+    # not-a-number versions are refused, every version inside the window is accepted
+    vif = [n for n in adapt.body if isinstance(n, ast.If) and "ver" in ast.unparse(n.test) and "json_version" in ast.unparse(n.test) and n.body and isinstance(n.body[-1], ast.Raise)]
+
+    def _ev(e, env):
+        import operator as op
+        OPS = {ast.Lt: op.lt, ast.LtE: op.le, ast.Gt: op.gt, ast.GtE: op.ge, ast.Eq: op.eq, ast.NotEq: op.ne}
+        if isinstance(e, ast.BoolOp):
+            vals = [_ev(v, env) for v in e.values]
+            return all(vals) if isinstance(e.op, ast.And) else any(vals)
+        if isinstance(e, ast.UnaryOp) and isinstance(e.op, ast.Not):
+            return not _ev(e.operand, env)
+        if isinstance(e, ast.Compare):
+            left = _ev(e.left, env)
+            for o, c in zip(e.ops, e.comparators):
+                right = _ev(c, env)
+                if isinstance(o, (ast.Is, ast.IsNot)):
+                    r = (left is right) if isinstance(o, ast.Is) else (left is not right)
+                elif type(o) in OPS:
+                    r = OPS[type(o)](left, right)
+                else:
+                    raise ValueError(ast.unparse(e))
+                if not r:
+                    return False
+                left = right
+            return True
+        t = ast.unparse(e)
+        if t in env:
+            return env[t]
+        if isinstance(e, ast.Constant):
+            return e.value
+        raise ValueError(t)
+    if len(vif) != 1:
+        rep.undecided(R, site("TOTP._adapt_dict_kwds") + " version window", f"{len(vif)} raising tests on the version")
+    else:
+        want = {0: True, 1: True, 2: False, 3: False, 4: False, 5: True, float("nan"): True}
+        try:
+            wrong = []
+            for v, rej in want.items():
+                try:
+                    got = bool(_ev(vif[0].test, {"ver": v, "cls.min_json_version": 2, "cls.json_version": 4}))
+                except TypeError:
+                    got = True
+                if got != rej:
+                    wrong.append(repr(v))
+            rep.check(not wrong, R, site("TOTP._adapt_dict_kwds") + " version window", f"`{ast.unparse(vif[0].test)}` decides version(s) {', '.join(wrong)} wrongly (window 2..4)" if wrong else "window decided correctly",
+                      "a missing, zero, out-of-window or not-a-number version is refused; versions inside the window are accepted",
+                      witness="TOTP.from_json('{\"v\":NaN,\"type\":\"totp\",\"key\":\"JBSWY3DPEHPK3PXP\"}') is accepted: NaN is neither below the minimum nor above the maximum")
+        except ValueError as e:
+            rep.undecided(R, site("TOTP._adapt_dict_kwds") + " version window", f"test is not a pure comparison: {e}")
     rep.check("kwds.update(key=kwds.pop('enckey'), format='encrypted')" in at, R, site("TOTP._adapt_dict_kwds"), "enckey -> key, format='encrypted'", "encrypted keys are routed to the decrypting setter")
     rep.check(has_if(adapt, "'key' not in kwds"), R, site("TOTP._adapt_dict_kwds"), "missing key -> ValueError", "a record without key material is refused")
     rep.check(returns(model.func(T, "TOTP._dict_parse_error")) == ["ValueError(f'Invalid totp data: {reason}')"], R, site("TOTP._dict_parse_error"), "ValueError", "dict errors are ValueErrors")
